@@ -215,12 +215,12 @@ Qed.
 Definition counter_at (lims : list Z) (o om : Z) : counter :=
   mkCounter lims (chain_of lims o) (gcode lims o) o om.
 
-Theorem construct_spec lims o : lims_ok lims -> 0 <= o < prodZ lims -> o <= INT_MAX ->
-  construct lims o = Some (counter_at lims o (prodZ lims - 1)).
+Theorem construct_spec bits lims o : lims_ok lims -> 0 <= o < prodZ lims -> o <= int_max bits ->
+  construct bits lims o = Some (counter_at lims o (prodZ lims - 1)).
 Proof.
   intros Hok Ho Hi. unfold construct, initialize, cast_int.
   replace ((o <? 0) || (prodZ lims - 1 <? o)) with false by lia.
-  replace ((0 <=? o) && (o <=? INT_MAX)) with true by lia.
+  replace ((0 <=? o) && (o <=? int_max bits)) with true by lia.
   rewrite (gray_from_spec lims Hok o Ho). reflexivity.
 Qed.
 
@@ -270,15 +270,15 @@ Proof.
 Qed.
 
 (* initialize(o) = next^o(initialize(0)) *)
-Theorem gray_init_eq_iter lims o : lims_ok lims -> 0 <= o < prodZ lims -> o <= INT_MAX ->
-  match construct lims 0 with
+Theorem gray_init_eq_iter bits lims o : lims_ok lims -> 0 <= o < prodZ lims -> o <= int_max bits ->
+  match construct bits lims 0 with
   | Some c0 => next_n (Z.to_nat o) c0
   | None => None
-  end = construct lims o.
+  end = construct bits lims o.
 Proof.
   intros Hok Ho Hi. pose proof (prodZ_pos lims Hok).
-  rewrite (construct_spec lims 0 Hok) by (unfold INT_MAX; lia).
-  rewrite (construct_spec lims o Hok Ho Hi).
+  rewrite (construct_spec bits lims 0 Hok) by lia.
+  rewrite (construct_spec bits lims o Hok Ho Hi).
   rewrite (next_n_spec lims (prodZ lims - 1) Hok (Z.to_nat o) 0) by lia.
   f_equal. f_equal. lia.
 Qed.
